@@ -174,3 +174,9 @@ Definition edn_write_escapes : list (N * str) :=
 Definition edn_dispatch_chars : list N := [34; 40; 41; 58; 59; 91; 92; 93; 123; 125]%N.
 (* bencode.lpy: the byte literals decode* dispatches on, the list/dict terminator, the length separator *)
 Definition bencode_tokens : list N := [105; 108; 100; 101; 58]%N.
+
+(* ---- C11 (harness/tr/tr_bindings.py): shapes of the binding functions on the repaired tree ---- *)
+Definition push_thread_bindings_shape : N := 1%N.
+Definition pop_thread_bindings_shape : N := 1%N.
+Definition var_bindings_shape : N := 1%N.
+Definition binding_forms_shape : N := 1%N.
